@@ -225,17 +225,11 @@ func checkC19W(cc any) *ev.Verdict {
 		}
 		v.Label("wire:initialize")
 	}
-	ni := 0
 	answered := 0
+	versions := map[string][]string{} // uri -> what a fresh analysis publishes for each successive text
 	for k, e := range exps {
 		if e.idJSON == "" {
-			if ni >= len(notifs) {
-				return v.Failf("wire-notification-count", "step %d (%s %s): no diagnostics were published (%d notifications in all, expected one per open/change)", e.step, e.op.Kind, e.op.URI, len(notifs))
-			}
-			if notifs[ni] != wants[k].notif {
-				return v.Failf("wire-diagnostics", "step %d (%s %s): published %s\na fresh analysis of the text just sent publishes %s\ntext: %q", e.step, e.op.Kind, e.op.URI, notifs[ni], wants[k].notif, e.text)
-			}
-			ni++
+			versions[e.op.URI] = append(versions[e.op.URI], wants[k].notif)
 			continue
 		}
 		rs := responses[e.idJSON]
@@ -254,8 +248,37 @@ func checkC19W(cc any) *ev.Verdict {
 			v.Label("answer:non-null")
 		}
 	}
-	if ni != len(notifs) {
-		return v.Failf("wire-notification-count", "%d notifications were published, expected %d (one per open/change)", len(notifs), ni)
+	// published diagnostics: for every document, the sets published for it are, in order, sets
+	// of successive versions of its text (a server may skip a publication that repeats what the
+	// client holds), and the last one is the set of the latest text
+	published := map[string][]string{}
+	for _, n := range notifs {
+		u := notifURI(n)
+		if _, ok := versions[u]; !ok {
+			return v.Failf("wire-diagnostics", "diagnostics published for a document that was never opened: %s", n)
+		}
+		published[u] = append(published[u], n)
+	}
+	for u, vs := range versions {
+		j := 0
+		for _, n := range published[u] {
+			for j < len(vs) && vs[j] != n {
+				j++
+			}
+			if j == len(vs) {
+				return v.Failf("wire-diagnostics", "document %s: the published set %s is not what a fresh analysis of any (remaining) version of its text publishes; versions in order: %v; published in order: %v", u, n, vs, published[u])
+			}
+		}
+		have := "textDocument/publishDiagnostics uri=" + u + " []"
+		if len(published[u]) > 0 {
+			have = published[u][len(published[u])-1]
+		}
+		if have != vs[len(vs)-1] {
+			return v.Failf("wire-diagnostics", "document %s: at the end the client holds %s\na fresh analysis of its latest text publishes %s", u, have, vs[len(vs)-1])
+		}
+		if msg, ok := heldMatchesLibrary(have, latest[u]); !ok {
+			return v.Failf("wire-diagnostics", "document %s: %s", u, msg)
+		}
 	}
 	changes := 0
 	nonASCII := false
